@@ -606,7 +606,8 @@ def group_traces(*traces):
             else:
                 v = tr.get(k, "")
             gr.append(str(v))
-        gr = "".join(gr)
+        # a tuple, not the concatenated string: ("1", "11") and ("11", "1") are different groups
+        gr = tuple(gr)
         if gr not in mesh_groups:
             mesh_groups[gr] = []
         mesh_groups[gr].append(tr)
